@@ -65,6 +65,9 @@ bool prepare(TableFace &tf, const std::string &kind) {
         e[4] = 0; e[5] = 3; e[6] = 0xFF; e[7] = 0xF0;
         tf.tables[tagof("Sill")] = sl;
     }
+    // zero-length tables: the client hands out a (non-NULL) buffer of length 0, which has to come back like any other
+    if (kind == "emptyname") tf.tables[tagof("name")] = std::vector<uint8_t>();
+    if (kind == "emptyglyf") tf.tables[tagof("glyf")] = std::vector<uint8_t>();
     if (kind == "noname") tf.drop("name");
     else if (kind == "badlabel") {      // every Windows-platform name string ends in an unpaired lead surrogate
         std::vector<uint8_t> n = tf.tables[tagof("name")];
